@@ -13,6 +13,8 @@ Definition tbl_with (m : member) (ops : list mop) (m' : member) : list mop :=
   then ops else model_table m'.
 Lemma checker_rejects_slips :
   check_table (tbl_with OA_Resize [MBufResize]) = false /\
+  failing_configs (tbl_with OA_Resize [MBufReserve; MBufResize; MSetPtr PBufData NBufSize])
+    = [(OA_Resize, ResizeRef 0 5 0 1); (OA_Resize, ResizeRef 0 9 0 2); (OA_Resize, ResizeRef 1 7 1 0); (OA_Resize, Resize 0 5 9%N)] /\
   check_table (tbl_with OA_ResetPtr [MSelfReset; MBufRange; MSetPtr PBufData NBufSize]) = false /\
   failing_configs (tbl_with OA_ResetPtr [MSelfReset; MBufRange; MSetPtr PBufData NBufSize])
     = [(OA_ResetPtr, ResetWrap 0 0 0 3); (OA_ResetPtr, ResetWrap 0 0 1 2); (OA_ResetPtr, ResetWrap 0 0 1 1); (OA_ResetPtr, ResetWrap 1 1 0 1)] /\
